@@ -346,6 +346,21 @@ func (g *Gen) swarmExtras(p *Plan, persistent, topo bool) {
 			}
 		}
 	}
+	if persistent && p.Property != "C09" && g.chance(1, 5) {
+		// SERIALIZABLE isolation outside C09's profile (which draws it itself): possible since the wake-up defect behind a
+		// serializable predecessor was repaired in round 2 - before that it was confined to C09 so that the recorded
+		// finding could not surface under another property's id
+		n := 0
+		for i := range p.Scenario {
+			if p.Scenario[i].Kind == "set" && g.chance(1, 3) {
+				p.Scenario[i].Serial = true
+				n++
+			}
+		}
+		if n > 0 {
+			p.Profile += "+serializable"
+		}
+	}
 	if topo && g.chance(1, 5) {
 		p.Profile += "+topo-faults"
 		for i := 0; i <= g.pick(3); i++ {
